@@ -391,12 +391,19 @@ def run_mitm(cfg):
             air.mitm = (cfg["src"], cfg["at"], frame_mutator(cfg["cls"], cfg["arg"], rnd), cfg.get("burst", 1))
         state = {}
 
-        class Server(nfc.snep.SnepServer):
+        class SnepSrv(nfc.snep.SnepServer):
             def process_put_request(self, records):
                 return 0x81
 
             def process_get_request(self, records):
                 return records
+
+        class HoSrv(nfc.handover.HandoverServer):
+            def process_handover_request_message(self, records):
+                hs = ndef.HandoverSelectRecord("1.3")
+                hs.add_alternative_carrier("active", "c1")
+                return [hs, ndef.Record("application/x-p", "c1", bytes(200))]
+        Server = HoSrv if cfg.get("svc") == "handover" else SnepSrv
 
         def mk(side, is_server):
             def startup(llc):
@@ -444,7 +451,24 @@ def run_mitm(cfg):
                 return True
             return {"on-startup": startup, "on-connect": on_connect, "on-release": on_release}
 
+        def ho_client(llc):
+            try:
+                hr = ndef.HandoverRequestRecord("1.3", 0x1234)
+                hr.add_alternative_carrier("active", "c1")
+                msg = [hr, ndef.Record("application/x-p", "c1", bytes(300))]
+                try:
+                    with nfc.handover.HandoverClient(llc) as cl:        # the records API of the client, twice
+                        for _ in range(2):
+                            if cl.send_records(msg):
+                                cl.recv_records(timeout=0.4)
+                except nfc.llcp.Error:
+                    pass                 # documented error type
+            finally:
+                done.set()
+
         def client(llc):
+            if cfg.get("svc") == "handover":
+                return ho_client(llc)
             try:
                 cl = nfc.snep.SnepClient(llc)
                 msg = b"".join(ndef.message_encoder([ndef.Record("application/x-v", "", bytes(300))]))
@@ -589,6 +613,13 @@ def gen_b(tier, seed):
                 n += 1
                 out.append(dict(id="llcp%d" % n, kind="mitm", layer="llcp", src=src, at=at, cls=cls, arg=0,
                                 seed=seed * 37 + n, server=rnd.choice("IT"), miu=rnd.choice([128, 248, 2175])))
+    # the same PDU-level garbage against a handover server / client pair (records API of the client)
+    for src in ("I", "T"):
+        for at in ((0, 1, 2, 3, 4, 6) if quick else range(0, 16)):
+            for cls in (LLCP_GARBAGE if not quick else ("random", "trunc", "unknown-ptype", "i-wrong-ns", "dm", "disc", "frmr")):
+                n += 1
+                out.append(dict(id="ho%d" % n, kind="mitm", layer="llcp", src=src, at=at, cls=cls, arg=0, svc="handover",
+                                seed=seed * 47 + n, server=rnd.choice("IT"), miu=rnd.choice([128, 248])))
     # bursts: several consecutive frames / PDUs replaced (histories, not single inputs); burst 1000 = "from here on only garbage"
     for src in ("I", "T"):
         for at in ((0, 2, 5) if quick else (0, 1, 2, 3, 4, 5, 6, 8, 11, 15)):
@@ -612,7 +643,7 @@ def gen_b(tier, seed):
             break
     if quick:
         rnd.shuffle(out)
-        keep = [c for c in out if c["kind"] == "card"] + [c for c in out if c["kind"] == "mitm"][:800]
+        keep = [c for c in out if c["kind"] == "card"] + [c for c in out if c["kind"] == "mitm"][:900]
         out = keep
     return out
 
@@ -677,7 +708,7 @@ def run(tier, seed):
         cfg = p["cfg"]
         if p["injected"] or cfg["kind"] == "card":
             ninj += 1
-            nontrivial.add(("B", cfg["kind"], cfg.get("layer"), cfg.get("cls"), cfg.get("src"), min(cfg.get("at", 0), 12), cfg.get("burst", 1)))
+            nontrivial.add(("B", cfg["kind"], cfg.get("layer"), cfg.get("cls"), cfg.get("src"), min(cfg.get("at", 0), 12), cfg.get("burst", 1), cfg.get("svc", "snep")))
         if v[0] == "ACCEPT":
             continue
         line, act, why = v[1], v[2], v[3]
